@@ -2,6 +2,7 @@
    M = the node-vector trie of Model.v (what zipora calls Patricia storage), S = a duplicate-free list of keys. *)
 From ZV.Common Require Import Base Run.
 From ZV.C05 Require Import Model Spec ProofsBase ProofsInsert ProofsRemove ProofsRefine ProofsKeys ProofsLouds ProofsSpec ProofsClone.
+From ZV.C05 Require Import ModelFsa ModelDa ModelCs ModelAll ProofsFsa.
 Open Scope N_scope.
 
 (* ptrie_refines_set: for EVERY history of insert / remove / contains / len / accepts / longest_prefix calls
@@ -183,3 +184,31 @@ Theorem ptrie_refines_set_with_clone : forall ops, Forall op_ok ops -> p_run_c t
 Proof. exact ptrie_refines_set_with_clone_proof. Qed.
 Check ptrie_refines_set_with_clone : forall ops, Forall op_ok ops -> p_run_c true p_empty ops = s_run [] ops.
 Print Assumptions ptrie_refines_set_with_clone.
+
+(* ------------------------------------------------------------------------------------------------------------------
+   Extension: the default methods of src/fsa/traits.rs over any automaton, the double-array storage, the hash-map
+   (compressed-sparse) storage. *)
+
+(* fsa_longest_prefix_correct: the default accepts / longest_prefix of trait FiniteStateAutomaton (and Trie::lookup),
+   as written, over ANY state type, transition function, is_final and root whose language (the keys k with
+   lookup(k).is_some()) is the set S - in particular root final <-> the empty key is a member: accepts is membership
+   and longest_prefix(q) is s_longest_prefix S q, i.e. (s_longest_prefix_spec) the length of the longest member that
+   is a prefix of q, None if there is none *)
+Theorem fsa_longest_prefix_correct : forall (St : Type) (trans : St -> N -> option St) (isfin : St -> bool) (root : St) (S : keyset),
+  (forall k, g_lookup trans isfin root k = mem k S) ->
+  forall q, g_accepts trans isfin root q = mem q S /\ g_longest_prefix trans isfin root q = s_longest_prefix S q.
+Proof. exact fsa_longest_prefix_correct_proof. Qed.
+Check fsa_longest_prefix_correct : forall (St : Type) (trans : St -> N -> option St) (isfin : St -> bool) (root : St) (S : keyset),
+  (forall k, g_lookup trans isfin root k = mem k S) ->
+  forall q, g_accepts trans isfin root q = mem q S /\ g_longest_prefix trans isfin root q = s_longest_prefix S q.
+Print Assumptions fsa_longest_prefix_correct.
+
+(* the FSA view of the node-vector model (fsa_accepts / fsa_longest_prefix of Model.v) is that generic walk *)
+Theorem fsa_generic_is_patricia : forall ns q,
+  fsa_accepts ns q = g_accepts (child ns) (fin ns) 0%nat q /\
+  fsa_longest_prefix ns q = g_longest_prefix (child ns) (fin ns) 0%nat q.
+Proof. exact fsa_generic_is_patricia_proof. Qed.
+Check fsa_generic_is_patricia : forall ns q,
+  fsa_accepts ns q = g_accepts (child ns) (fin ns) 0%nat q /\
+  fsa_longest_prefix ns q = g_longest_prefix (child ns) (fin ns) 0%nat q.
+Print Assumptions fsa_generic_is_patricia.
